@@ -14,6 +14,8 @@ Trace vocabulary of the lifecycle harness (one token per event):
   q<r>,<st>     request callback while the handle is not closing      (input, echoed by the model)
   x<r>,<st>     request callback while the handle is closing          (predicted by the model)
   h<h>          any other callback of handle h                        (input, echoed)
+  b<h>          uv__write_callbacks / uv__udp_run_completed of h starts (inserted by translate();
+                the q/x tokens of write and send requests that follow are predicted by the model)
   g<h>,<n>      caught-but-undispatched signals of closing handle h at the start of the closing phase
   F<h> T<h>     uv_fs_poll_start / stop     D<h>  the pool finished a stat of h (poll_cb ran)
   C<h>          uv_close(h)        K  closing phase of this iteration        c<h>  close_cb
@@ -361,12 +363,18 @@ def gen_case(rng):
 # harness trace -> (model input, expected model output)
 # --------------------------------------------------------------------------
 def translate(line, late_d):
-    """late_d: place a stat completion that had no user callback at the end (True) or at the
-    start (False) of its poll phase.  Returns (model_case, expected, ambiguous)."""
+    """late_d: place a stat completion that had no user callback (and is not followed, in pool
+    order, by one that had) at the end (True) or at the start (False) of its poll phase.
+    Returns (model_case, expected, ambiguous).
+
+    The pool has one thread, so stats complete -- and their poll_cb run, inside uv__work_done --
+    in submission order: a completion without user callback that was submitted before one with a
+    user callback is placed right before that callback."""
     top, behs, exp = [], [], []
     depth = 0
     cur = None
-    fp_active, fp_inflight, fp_wait, fp_now = {}, {}, {}, {}
+    fp_active = {}
+    fp_inflight, fp_wait, fp_now = [], [], []      # handle ids, pool (FIFO) order
     kinds = []
     last_h = None
     ambiguous = False
@@ -379,37 +387,59 @@ def translate(line, late_d):
         if is_input:
             (top if depth == 0 else behs[cur]).append(tok)
 
-    for tok in line.split():
+    toks = line.split()
+    for pos, tok in enumerate(toks):
         c = tok[0]
         if tok.startswith("ABORT") or c == "!":
             continue
         if c == ".":
             if tok == ".W":
-                for h, n in fp_inflight.items():
-                    fp_wait[h] = fp_wait.get(h, 0) + n
-                fp_inflight = {}
+                fp_wait += fp_inflight
+                fp_inflight = []
             elif tok == ".P":
                 in_batch = None
-                fp_now, fp_wait = fp_wait, {}
-                if not late_d:
-                    for h, n in fp_now.items():
-                        for _ in range(n):
-                            ambiguous = True
-                            emit("D%d" % h)
-                    fp_now = {}
+                fp_now, fp_wait = fp_wait, []
+                if fp_now and not late_d:
+                    # the prefix that is not followed by a completion with a user callback
+                    withcb = set()
+                    d = 0
+                    for t in toks[pos + 1:]:
+                        if t == "{":
+                            d += 1
+                        elif t == "}":
+                            d -= 1
+                        elif t in ("K", ".E") and d == 0:
+                            break
+                        elif t[0] == "h" and d == 0 and t[1:].isdigit():
+                            withcb.add(int(t[1:]))
+                    while fp_now and not any(x in withcb for x in fp_now):
+                        ambiguous = True
+                        emit("D%d" % fp_now.pop(0))
+            elif tok == ".E" and depth == 0:
+                # the poll phase is over: every completed stat has had its poll_cb
+                while fp_now:
+                    ambiguous = True
+                    emit("D%d" % fp_now.pop(0))
             continue
         if c == "{":
             depth += 1
             continue
         if c == "}":
             depth -= 1
-            if depth == 0 and last_h is not None and fp_now.get(last_h, 0) > 0:
-                fp_now[last_h] -= 1
+            if depth == 0 and last_h is not None and fp_now and fp_now[0] == last_h:
+                fp_now.pop(0)
                 emit("D%d" % last_h)
             last_h = None if depth == 0 else last_h
             continue
         if c in "hqxc":
             if depth == 0:
+                if c == "h" and int(tok[1:]) in fp_now:
+                    # poll_cb of everything submitted before it has run already; only the newest
+                    # context of a handle (the last entry for it) calls the user back
+                    x = int(tok[1:])
+                    last = len(fp_now) - 1 - fp_now[::-1].index(x)
+                    for _ in range(last):
+                        emit("D%d" % fp_now.pop(0))
                 behs.append([])
                 cur = len(behs) - 1
                 last_h = int(tok[1:]) if c == "h" else None
@@ -446,11 +476,9 @@ def translate(line, late_d):
             exp.append(tok)
             continue
         if c == "K" and depth == 0:
-            for h, n in fp_now.items():
-                for _ in range(n):
-                    ambiguous = True
-                    emit("D%d" % h)
-            fp_now = {}
+            while fp_now:
+                ambiguous = True
+                emit("D%d" % fp_now.pop(0))
         if c == "I":
             kinds.append(tok[1])
         if c == "S":
@@ -462,7 +490,7 @@ def translate(line, late_d):
             h = int(tok[1:])
             if not fp_active.get(h):
                 fp_active[h] = True
-                fp_inflight[h] = fp_inflight.get(h, 0) + 1
+                fp_inflight.append(h)
         if c == "T":
             fp_active[int(tok[1:])] = False
         if c == "C":
@@ -617,7 +645,7 @@ def main():
     corpus_f = os.path.join(vf.VERIF, "corpus", "C02", "cases.txt")
     corpus = [l.rstrip("\n") for l in open(corpus_f) if l.strip() and not l.startswith("#")] \
         if os.path.exists(corpus_f) else []
-    n = 12000 if thorough else 700
+    n = 40000 if thorough else 700
     cases = corpus + [gen_case(chk.rng) for _ in range(n)]
     impl, rc, err = vf.run_lines([life], cases, shards=min(vf.JOBS, 16), timeout=900, env=env)
     name = "close paths of every handle kind = Model/CloseProto.v"
@@ -652,7 +680,7 @@ def main():
         chk.cov["aborted_runs"] = sum(1 for l in impl if "ABORT" in l)
 
     # ---- the five simple kinds against Model/LoopCore.v, same library
-    m = 6000 if thorough else 400
+    m = 20000 if thorough else 400
     lcases = [gen_lc_case(chk.rng) for _ in range(m)]
     a, _, _ = vf.run_lines([lcore], lcases, shards=8, timeout=600, env=env)
     b, _, _ = vf.run_lines([lcmodel], lcases, shards=8, timeout=600)
